@@ -532,6 +532,11 @@ def space_case(rng, recipe, op, poison=False, special=False):
         x = mk_element(rng, recipe, 'div')
         if same:
             y = x
+    if op.startswith('data:'):
+        same = False
+        dn = op.split(':')[1]
+        x = mk_element(rng, recipe, 'div' if dn == '__rtruediv__' else 'any')
+        y = mk_element(rng, recipe, 'div' if dn in ('__truediv__', '__itruediv__') else 'any')
     c = rng.choice(DIV_SC if op in ('itruediv_s', 'truediv_s') else scs)
     if op == 'rtruediv_s':
         x = mk_element(rng, recipe, 'div')
@@ -648,6 +653,43 @@ def space_case(rng, recipe, op, poison=False, special=False):
                     wop = 'WCopyLeaf %s %s' % (tx.split()[1].rstrip(')'), ctx.term(res, True).split()[1].rstrip(')'))
                 else:
                     wop = '%s %s %s' % ('WNeg' if op == 'neg' else 'WPos', tx, ctx.term(res, True))
+            elif op.startswith('data:'):
+                # the other operand is plain data: nested list / tuple, ndarray (list of ndarrays for a product
+                # space).  The operator wraps it with self.space.element(data) and re-dispatches.
+                import operator as _o
+                _, dn, dk = op.split(':')
+
+                def as_data(el):
+                    if _is_pse(el):
+                        parts = [as_data(pp) for pp in el.parts]
+                        return tuple(parts) if dk == 'tuple' else parts
+                    arr_ = np.array(np.asarray(el), copy=True)
+                    if dk == 'ndarray':
+                        return arr_
+                    return tuple(map(tuple, arr_.reshape(arr_.shape[0], -1).tolist())) if (dk == 'tuple' and arr_.ndim == 2) \
+                        else (tuple(arr_.tolist()) if (dk == 'tuple' and arr_.ndim == 1) else arr_.tolist())
+                data = as_data(y)
+                leaves_y = [np.array(t.data, copy=True) for t in leaf_tensors(y)]
+                th = ctx.hidden_like(y, leaves_y)
+                natural = dk != 'ndarray'      # `ndarray <op> x` is NumPy's ufunc protocol (C17), not the dunder
+                call = {'__add__': lambda: x + data, '__sub__': lambda: x - data, '__mul__': lambda: x * data,
+                        '__truediv__': lambda: x / data,
+                        '__iadd__': lambda: _o.iadd(x, data), '__isub__': lambda: _o.isub(x, data),
+                        '__imul__': lambda: _o.imul(x, data), '__itruediv__': lambda: _o.itruediv(x, data),
+                        '__radd__': (lambda: data + x) if natural else (lambda: x.__radd__(data)),
+                        '__rsub__': (lambda: data - x) if natural else (lambda: x.__rsub__(data)),
+                        '__rmul__': (lambda: data * x) if natural else (lambda: x.__rmul__(data)),
+                        '__rtruediv__': (lambda: data / x) if natural else (lambda: x.__rtruediv__(data))}[dn]
+                res = call()
+                opn = {'__add__': 'OAdd', '__radd__': 'OAdd', '__iadd__': 'OIAdd', '__sub__': 'OSub', '__isub__': 'OISub',
+                       '__rsub__': 'ORSub', '__mul__': 'OMul', '__rmul__': 'OMul', '__imul__': 'OIMul',
+                       '__truediv__': 'OTrueDiv', '__itruediv__': 'OITrueDiv', '__rtruediv__': 'ORTrueDiv'}[dn]
+                if dn.startswith('__i'):
+                    assert res is x
+                    wop = 'WData %s %s %s %s' % (opn, tx, th, tx)
+                else:
+                    assert res is not x
+                    wop = 'WData %s %s %s %s' % (opn, tx, th, ctx.term(res, True))
             elif op in ('add_arr', 'iadd_arr', 'sub_arr', 'rsub_arr', 'mul_arr', 'imul_arr', 'truediv_arr'):
                 # array-like operand: the operator builds space.element(other) and calls itself again
                 def nested(el):
@@ -704,7 +746,9 @@ def space_case(rng, recipe, op, poison=False, special=False):
             err = 1
             if 'wop' not in dir():
                 wop = None
-    if err:
+    if err and op.startswith('data:'):
+        wop = 'WData %s %s %s %s' % ('OTrueDiv', tx, ty, ctx.hidden_like(x))
+    elif err:
         # the operation raised a casting error (true division into an integer array)
         nm = {'itruediv': 'WITrueDiv %s %s' % (tx, ty), 'truediv': 'WTrueDiv %s %s %s' % (tx, ty, ctx.hidden_like(x)),
               'rtruediv': 'WRTrueDiv %s %s %s' % (tx, ty, ctx.hidden_like(x)),
@@ -784,6 +828,9 @@ OPS = ['lincomb2', 'lincomb1', 'multiply', 'divide', 'assign', 'set_zero', 'copy
        'truediv_s', 'rtruediv_s', 'neg', 'pos', 'ipow', 'ipow_neg',
        'add_arr', 'iadd_arr', 'sub_arr', 'rsub_arr', 'mul_arr', 'imul_arr', 'truediv_arr',
        'el_lincomb', 'multiply_noout', 'divide_noout', 'el_multiply', 'el_divide']
+DATA_DUNDERS = ['__add__', '__radd__', '__iadd__', '__sub__', '__rsub__', '__isub__', '__mul__', '__rmul__', '__imul__',
+                '__truediv__', '__rtruediv__', '__itruediv__']
+DATA_OPS = ['data:%s:%s' % (d, k) for d in DATA_DUNDERS for k in ('list', 'tuple', 'ndarray')]
 
 
 def rand_recipe(rng, base, depth):
@@ -827,6 +874,22 @@ def space_cases(rng, tier, S):
         if 'int' not in bases:
             for op in (OPS if not quick else rng.sample(OPS, 14)):
                 S.put('sp', 'x', space_case(rng, r, op, poison=True), CHECKW, 'caseW %s')
+    # every binary operator (out-of-place, reflected, in-place) with the other operand given as plain data:
+    # nested list, nested tuple, ndarray (list of ndarrays for product spaces) -- the array-like fallback
+    # branches of the overloads (wrap with space.element, re-dispatch)
+    data_recipes = [('T', 'float64', (3,)), ('T', 'float64', (2, 3)), ('D', 'float64', (4,)), ('D', 'float64', (3, 2)),
+                    ('T', 'complex128', (3,)), ('T', 'int64', (3,)), ('T', 'float64', (100,)),
+                    ('P', [('T', 'float64', (3,)), ('D', 'float64', (2,))]),
+                    ('P', [('T', 'float64', (2,))] * 3),
+                    ('P', [('P', [('T', 'float64', (2,)), ('D', 'float64', (2, 2))]), ('T', 'float64', (3,))])]
+    if not quick:
+        data_recipes += [rand_recipe(rng, rng.choice(['real', 'cx', 'mixed']), rng.randint(1, 3)) for _ in range(12)]
+    for r in data_recipes:
+        for op in DATA_OPS:
+            S.put('sp', 'x', space_case(rng, r, op), CHECKW, 'caseW %s')
+    for r in data_recipes[:5] + data_recipes[7:10]:
+        for op in rng.sample(DATA_OPS, 8 if quick else 24):
+            S.put('sp', 'x', space_case(rng, r, op, poison=True), CHECKW, 'caseW %s')
     # zeros / inf / nan in operands of the multiply / divide family (IEEE result at every entry,
     # non-finite = None at the poisoned carrier), old contents of explicit outputs NaN or finite
     for r in [rc for rc in recipes if 'int' not in set(DT[l[1]][0] for l in leaf_recipes(rc))][:(14 if quick else 40)]:
@@ -854,7 +917,34 @@ def translate():
     return {'Gen/Lincomb.v': TL.translate(), 'Gen/SpaceOps.v': TS.translate()}
 
 
+_COV = {}
+
+
+def extra_coverage():
+    return {'operator_line_coverage_during_correspondence': dict(_COV)}
+
+
+def _traced_functions():
+    from odl.set.space import LinearSpace, LinearSpaceElement as E
+    from odl.space import pspace, npy_tensors
+    fs = [LinearSpace.lincomb, LinearSpace.multiply, LinearSpace.divide, npy_tensors._lincomb_impl,
+          npy_tensors._blas_is_applicable, pspace.ProductSpaceElement.__add__]
+    for nm in ('assign', 'copy', 'set_zero', 'lincomb', 'multiply', 'divide', '__iadd__', '__add__', '__radd__', '__isub__',
+               '__sub__', '__rsub__', '__imul__', '__mul__', '__rmul__', '__itruediv__', '__truediv__', '__rtruediv__',
+               '__ipow__', '__pow__', '__neg__', '__pos__'):
+        fs.append(getattr(E, nm))
+    return fs
+
+
 def correspondence(rng, tier):
+    with C.LineTrace(_traced_functions()) as lt:
+        res = _correspondence(rng, tier)
+    _COV.clear()
+    _COV.update(lt.report())
+    return res
+
+
+def _correspondence(rng, tier):
     S = Sets()
     lincomb_cases(rng, tier, S)
     space_cases(rng, tier, S)
